@@ -4,6 +4,7 @@ package main
 // Mem (Array Int (Array Int Int)). Everything the VC generator emits goes through here.
 
 import (
+	"os"
 	"fmt"
 	"math/big"
 	"sort"
@@ -524,6 +525,8 @@ func readCell(m, obj, idx *Term, tag string) *Term {
 // readThrough returns an earlier memory version that holds the same value for every cell of
 // type `tag` in object obj (writes to provably different objects and writes of other cell
 // types are skipped).
+var debugRT = os.Getenv("GOCV_DEBUG_RT") != ""
+
 func readThrough(m, obj *Term, tag string, depth int) *Term {
 	cur := m
 	for steps := 0; steps < 400 && depth < 40; steps++ {
@@ -554,6 +557,11 @@ func readThrough(m, obj *Term, tag string, depth int) *Term {
 		// aliasing unknown: both cases must lead to the same earlier memory
 		mb, ob, ok := bottomOtherTags(arr, tag)
 		if !ok || !sameIdx(ob, o) {
+			if debugRT {
+				b, hb := objBound[obj.Key()]
+				e, he := allocEpoch[o.Key()]
+				fmt.Fprintf(os.Stderr, "readThrough(%s) stops at store to %s (bottom ok=%v) in %s; obj=%s bound=%v/%v allocEpoch=%v/%v cur=%d\n", tag, o, ok, cur, obj, b, hb, e, he, curEpoch)
+			}
 			break
 		}
 		c1 := readThrough(mb, obj, tag, depth+1)
@@ -580,6 +588,17 @@ func bottomOtherTags(arr *Term, tag string) (mb, ob *Term, ok bool) {
 		}
 		if a.Op == "select" && a.Sort == SArr {
 			return a.Args[0], a.Args[1], true
+		}
+		if a.Op == "ite" && a.Sort == SArr {
+			// a branch merge: both sides must bottom out in the same object
+			m1, o1, ok1 := bottomOtherTags(a.Args[1], tag)
+			m2, o2, ok2 := bottomOtherTags(a.Args[2], tag)
+			if ok1 && ok2 && sameIdx(o1, o2) {
+				if m1.Key() == m2.Key() {
+					return m1, o1, true
+				}
+				return Ite(a.Args[0], m1, m2), o1, true
+			}
 		}
 		return nil, nil, false
 	}
